@@ -400,12 +400,36 @@ class Frame:
                 return False
         if not builders:
             return False
+        # loop-carried scalars (`mean`, `ssd` read before they are re-assigned in the body): the value carried into iteration k
+        # was computed from x[0..k]; it is admissible when it starts from a constant or from x[0]
+        carried, seen_assigned = [], set()
+        for s in st.body:
+            val = s.value if isinstance(s, ast.Assign) else s.value.args[0]
+            for nd in ast.walk(val):
+                if isinstance(nd, ast.Name) and nd.id in temps and nd.id not in seen_assigned and nd.id not in carried:
+                    carried.append(nd.id)
+            if isinstance(s, ast.Assign):
+                seen_assigned.add(s.targets[0].id)
+
+        def init_ok(node, depth=0):
+            if node is None or depth > 4:
+                return False
+            if isinstance(node, ast.Name) and node.id in self.defs:
+                return init_ok(self.defs[node.id], depth + 1)
+            iv = self.ev(node)
+            return (isinstance(iv, Sc) and iv.dep == "const") or (
+                isinstance(node, ast.Subscript) and _const_int(node.slice) == 0
+                and isinstance(self.ev(node.value), Arr) and self.ev(node.value).lag == 0)
+
+        carried_bad = [c for c in carried if not init_ok(self.defs.get(c))]
         saved = dict(self.env)
         worst = {}
         try:
             self.env[elt.id] = CONST
             if idx_name:
                 self.env[idx_name] = CONST
+            for c in carried:
+                self.env[c] = CONST
             # at iteration 0 every list holds its single initial element; an append executed earlier in the same
             # iteration adds one (lengths only grow)
             for lname in builders:
@@ -427,12 +451,10 @@ class Frame:
             self.env = saved
         for lname in builders:
             init = self.defs[lname].elts[0]
-            iv = self.ev(init)
-            ok_init = (isinstance(iv, Sc) and iv.dep == "const") or (
-                isinstance(init, ast.Subscript) and _const_int(init.slice) == 0
-                and isinstance(self.ev(init.value), Arr) and self.ev(init.value).lag == 0)
-            if not ok_init:
+            if not init_ok(init):
                 worst[lname] = WHOLE(f"initial element {norm(init)} is not x[0] or a constant")
+            if carried_bad:
+                worst[lname] = WHOLE(f"loop-carried value {carried_bad[0]} does not start from x[0] or a constant")
         self.builder_lists = sorted(builders)
         for lname in builders:
             v = worst[lname]
